@@ -922,6 +922,13 @@ func ruleSiblingTable() check.Rule {
 									}
 								}
 							}
+							// the broadcast written out in the method: a notification sent to something other than the receiver
+							// (a stored observer reached through the observers collection)
+							if name, isObs := m.Obj.ObserverMethods[model.Callee(info, x)]; isObs && notifKind(name) >= 0 {
+								if id, ok := ast.Unparen(sel.X).(*ast.Ident); !ok || objOf(info, id) != rv {
+									f["broadcast"] = true
+								}
+							}
 							if id, ok := ast.Unparen(sel.X).(*ast.Ident); ok && objOf(info, id) == rv {
 								switch subjectHelperKind(m, p, x) {
 								case "broadcast":
